@@ -934,6 +934,27 @@ def constructor_cases():
 
             out.append(Case(f"{PROP}/bitvec.HalmosBitVec.__init__", f"{kind}->{size}", harness, sources=("halmos.bitvec:HalmosBitVec.__init__", "halmos.bitvec:HalmosBitVec.__new__", "halmos.bitvec:as_int")))
 
+    # HalmosBitVec(v) with no size, v an existing value of any width: v itself, untouched (values are shared: stack, DUP)
+    for kind in ("int", "term"):
+        for width in (1, 8, 160, 256, 264, 512):
+
+            def harness_same(interp, kind=kind, width=width):
+                ctx = interp.ctx
+                v = mk_bv(ctx, "a", kind, width)
+                before = (v._size, v._symbolic, v._value)
+                ok, r = guarded(interp, lambda: interp.call(hb.HalmosBitVec, [v], {}))
+                if not ok:
+                    return
+                ctx.oblige("without a size an existing value is returned as it is", z3.BoolVal(r is v))
+                ctx.oblige("frame: the value keeps its width, kind and content (values are immutable)", z3.BoolVal(v._size == before[0] and v._symbolic is before[1] and v._value is before[2]), info={"size": v._size})
+
+            def replay_same(r, width=width):
+                x = hb.HalmosBitVec(5, size=width)
+                hb.HalmosBitVec(x)
+                return {"reproduced": x.size != width, "detail": f"x = HalmosBitVec(5, size={width}); HalmosBitVec(x); x.size == {x.size}", "inputs": [5, width]}
+
+            out.append(Case(f"{PROP}/bitvec.HalmosBitVec.__init__", f"{kind}@{width}, no size given", harness_same, replay=replay_same, sources=("halmos.bitvec:HalmosBitVec.__init__", "halmos.bitvec:HalmosBitVec.__new__")))
+
     for kind in ("int", "term", "T", "F", "sym", "z3bool", "pybool"):
 
         def harness(interp, kind=kind):
